@@ -1255,6 +1255,9 @@ def _steps_generator(fn):
     if len(loop) != 1:
         return None
     body = loop[0].body
+    rs = _range_cycle_steps(fn, var, loop[0])
+    if rs is not None:
+        return rs
     if not (isinstance(body[0], ast.Expr) and isinstance(
             body[0].value, ast.Yield) and unparse(body[0].value.value) ==
             var):
@@ -1321,6 +1324,45 @@ def _steps_generator(fn):
         return steps
     return run_block(body[1:], [{"guard": [], "ret": Lin(1, 0),
                                  "next": Lin(1, 0)}])
+
+
+def _range_cycle_steps(fn, var, loop):
+    """yield i; yield from range(i + 1, K); while True: yield from
+    range(A, K) - the value after n is n + 1 while that is below K, else A
+    (an empty first range when i + 1 >= K goes straight to A)."""
+    def const(e):
+        return e.value if isinstance(e, ast.Constant) and type(
+            e.value) is int else None
+
+    def yf_range(s):
+        if isinstance(s, ast.Expr) and isinstance(
+                s.value, ast.YieldFrom) and isinstance(
+                    s.value.value, ast.Call) and unparse(
+                        s.value.value.func) == "range" and len(
+                            s.value.value.args) == 2:
+            return s.value.value.args
+        return None
+    stmts = [s for s in fn.body if not (isinstance(s, ast.Expr) and
+                                        isinstance(s.value, ast.Constant))]
+    if len(stmts) != 3 or stmts[2] is not loop:
+        return None
+    if not (isinstance(stmts[0], ast.Expr) and isinstance(
+            stmts[0].value, ast.Yield) and unparse(
+                stmts[0].value.value) == var):
+        return None
+    r1 = yf_range(stmts[1])
+    if r1 is None or unparse(r1[0]) not in ("%s + 1" % var, "1 + %s" % var):
+        return None
+    K = const(r1[1])
+    if not (isinstance(loop.test, ast.Constant) and loop.test.value in (
+            True, 1)) or len(loop.body) != 1:
+        return None
+    r2 = yf_range(loop.body[0])
+    if r2 is None or K is None or const(r2[1]) != K or const(r2[0]) is None:
+        return None
+    A = const(r2[0])
+    return [{"guard": [("<=", K - 2)], "ret": Lin(1, 0), "next": Lin(1, 1)},
+            {"guard": [(">", K - 2)], "ret": Lin(1, 0), "next": Lin(0, A)}]
 
 
 def _steps_method(fn, attr):
